@@ -2,7 +2,7 @@
    Statements only (copied from the lemma libraries); every proof is a bare
    `exact`; see the cited files in coq/proofs for the proofs. *)
 From Coq Require Import List NArith ZArith Bool Arith Sorting.Sorted Sorting.Permutation.
-From D2P Require Import Str Err Xml TableTypes Tables Fmt Bullets Merge Collector Walk ShapeFacts TokFacts FrameFacts MergeFacts Predicates SeqFacts LineageFacts BulletsFacts GridFacts LineageFacts GridWalk BlocksSpec MarkerFacts ReplaceFacts StandIns PyVal Source SourceBase SourceMerge PyHeap SourceHeap SourceHeapRuns SourceCaret SourceRuns.
+From D2P Require Import Str Err Xml TableTypes Tables Fmt Bullets Merge Collector Walk ShapeFacts TokFacts FrameFacts MergeFacts Predicates SeqFacts LineageFacts BulletsFacts GridFacts LineageFacts GridWalk BlocksSpec MarkerFacts ReplaceFacts StandIns PyVal Source SourceBase SourceMerge PyHeap SourceHeap SourceHeapRuns SourceCaret SourceRuns SourceFmt SourceForms SourceCaret2 SourceFresh SourceParas.
 Import ListNotations.
 
 (* refinement to the declarative spec: walking a paragraph whose content is inline (any nesting of runs, wrappers, unknown elements, hyperlinks, pictures, forms, equations; no nested paragraph, table cell, note or comment marker) appends exactly ONE record after all earlier ones, pointing at that element, with its style, whose tokens are: queued note label, list marker, then the contributions of its children in document order - nothing else, nothing twice, nothing from elsewhere; the open-paragraph stack and comment ranges are untouched *)
@@ -409,3 +409,58 @@ Theorem C02_model_queue_view :
   map (run_view b) (qs ++ [{| r_style := []; r_toks := ts |}]) = map (run_view b) qs ++ [([], render b ts)].
 Proof. exact model_queue_view. Qed.
 Print Assumptions C02_model_queue_view.
+
+(* SOURCE TIE: the text a check box contributes is computed by the translated get_checkBox_entry *)
+Theorem C02_source_get_checkBox_entry :
+  forall e ks, form_names_ok ks ->
+  S_get_checkBox_entry (enc_fel (AE e ks)) = lift_str (get_checkBox_entry e ks).
+Proof. exact src_get_checkBox_entry. Qed.
+Print Assumptions C02_source_get_checkBox_entry.
+
+(* SOURCE TIE: the text a drop-down contributes is computed by the translated get_ddList_entry *)
+Theorem C02_source_get_ddList_entry :
+  forall e ks, form_names_ok ks ->
+  S_get_ddList_entry (enc_fel (AE e ks)) = lift_str (get_ddList_entry e ks).
+Proof. exact src_get_ddList_entry. Qed.
+Print Assumptions C02_source_get_ddList_entry.
+
+(* SOURCE TIE: with no open paragraph, self._open_par commences one (elem=None): text found outside any w:p goes into a paragraph of its own (the model's ensure_par); with C02_source_add_text etc. this covers the run methods in every state *)
+Theorem C02_source_open_par_empty :
+  forall (epf : pv -> pv -> hm pv) (eps : pv -> hm pv),
+  forall h fuel sa c fs op,
+    h_get sa h = Some (HObj c fs) -> field_get f_open_pars fs = Some (VRef op) ->
+    h_get op h = Some (HList []) ->
+    S_H_open_par epf eps fuel (VRef sa) h = S_H_commence_paragraph epf eps fuel (VRef sa) VNone h.
+Proof. exact src_open_par_empty. Qed.
+Print Assumptions C02_source_open_par_empty.
+
+(* SOURCE TIE: the queued runs (note labels, list markers queued for the next paragraph) become the first runs of the paragraph that is commenced, the queue is emptied: nothing queued is lost or repeated *)
+Theorem C02_source_commence_paragraph :
+  forall (leaf_of : pv -> option par) (epf : pv -> pv -> hm pv) (eps : pv -> hm pv),
+  forall h self s s1 name fuel sa c fs rb brs bs op qa ql fmt,
+    rep leaf_of h self = Some (core_of s) -> (c_depth s <= 4)%nat -> (8 <= fuel)%nat ->
+    set_caret (Some 4%nat) name s = Ok s1 ->
+    self = VRef sa -> h_get sa h = Some (HObj c fs) ->
+    field_get f_branches fs = Some (VRef rb) -> h_get rb h = Some (HList brs) -> refs_of brs = Some bs ->
+    field_get f_open_pars fs = Some (VRef op) ->
+    field_get n_queued fs = Some (VRef qa) -> h_get qa h = Some (HList ql) -> ~ In qa (sa :: rb :: op :: bs) ->
+    rd_fmt h self = Some fmt ->
+    ext_fmt epf -> ext_sty eps ->
+    exists h' pa,
+      S_H_commence_paragraph epf eps fuel self (enc_elem name) h = HOk (VRef pa) h'
+      /\ (length h <= pa)%nat
+      /\ (forall p, leaf_of (VRef pa) = Some p ->
+            rep leaf_of h' self
+            = Some {| k_depth := c_depth s1; k_lineage := c_lineage s1; k_tree := c_tree s1;
+                      k_open := p :: c_open s1 |})
+      /\ (exists pfs ra lin,
+            h_get pa h' = Some (HObj n_Par pfs)
+            /\ field_get n_elem pfs = Some (enc_elem name)
+            /\ field_get n_lineage pfs = Some lin /\ dec_lineage lin = Some (c_lineage s1)
+            /\ field_get n_runs pfs = Some (VRef ra) /\ (length h <= ra)%nat
+            /\ h_get ra h' = Some (HList ql))
+      /\ (exists c' fs' qa', h_get sa h' = Some (HObj c' fs')
+            /\ field_get n_queued fs' = Some (VRef qa') /\ (length h <= qa')%nat
+            /\ h_get qa' h' = Some (HList [])).
+Proof. exact src_commence_paragraph. Qed.
+Print Assumptions C02_source_commence_paragraph.
